@@ -1376,3 +1376,187 @@ Proof.
     rewrite (prefixes_head (c0 :: cs)). cbn [map tl]. rewrite app_nil_r.
     reflexivity.
 Qed.
+
+(** * NewInstanceName accepts every valid instance name *)
+Lemma contains_skip c rest :
+  slash_free c -> contains [slash; slash] (c ++ rest) = contains [slash; slash] rest.
+Proof.
+  induction c as [|x c IH]; intro H; [reflexivity|]. cbn [app].
+  assert (x =? slash = false) as E by (apply N.eqb_neq; intro Q; apply H; left; auto).
+  change (contains [slash; slash] (x :: c ++ rest))
+    with (has_prefix [slash; slash] (x :: c ++ rest) || contains [slash; slash] (c ++ rest)).
+  cbn [has_prefix]. rewrite N.eqb_sym, E. cbn [andb orb]. apply IH. intro K. apply H. right. exact K.
+Qed.
+
+Lemma contains_join comps :
+  Forall (fun c => c <> [] /\ slash_free c) comps -> contains [slash; slash] (join_slash comps) = false.
+Proof.
+  induction comps as [|x r IH]; intro F; [reflexivity|]. inversion F as [|? ? [Hne Hsf] Fr]; subst.
+  destruct r as [|y r'].
+  - cbn [join_slash]. rewrite <- (app_nil_r x), contains_skip by exact Hsf. reflexivity.
+  - change (join_slash (x :: y :: r')) with (x ++ slash :: join_slash (y :: r')).
+    rewrite contains_skip by exact Hsf.
+    change (contains [slash; slash] (slash :: join_slash (y :: r')))
+      with (has_prefix [slash; slash] (slash :: join_slash (y :: r')) || contains [slash; slash] (join_slash (y :: r'))).
+    rewrite IH by exact Fr. rewrite orb_false_r.
+    destruct (join_first_last (y :: r') ltac:(discriminate) Fr) as [[a [t [-> Ha]]] _].
+    cbn [has_prefix]. rewrite N.eqb_refl. cbn [andb].
+    assert (slash =? a = false) as -> by (apply N.eqb_neq; congruence). reflexivity.
+Qed.
+
+Theorem instance_name_accepts_valid_proof v : valid_instance v -> new_instance_name v = Ok v.
+Proof.
+  intros [comps [-> Hc]]. destruct (valid_component_facts comps Hc) as [_ [Hgf _]].
+  unfold new_instance_name. rewrite contains_join by exact Hgf. rewrite orb_false_r.
+  rewrite fields_join by exact Hgf. rewrite validate_components_valid by exact Hc. cbn [bind].
+  destruct comps as [|c0 cs]; [reflexivity|].
+  destruct (join_first_last (c0 :: cs) ltac:(discriminate) Hgf) as [[a [t [E1 Ha]]] [t' [z [E2 Hz]]]].
+  assert (has_prefix [slash] (join_slash (c0 :: cs)) = false) as ->.
+  { rewrite E1. cbn [has_prefix]. assert (slash =? a = false) as -> by (apply N.eqb_neq; congruence). reflexivity. }
+  assert (has_suffix [slash] (join_slash (c0 :: cs)) = false) as ->.
+  { unfold has_suffix. rewrite E2, rev_app_distr. cbn [rev app has_prefix].
+    assert (slash =? z = false) as -> by (apply N.eqb_neq; congruence). reflexivity. }
+  reflexivity.
+Qed.
+
+(** * Soundness of acceptance: whatever a parser accepts is a non-degenerate digest *)
+Definition bare_entry_ok (f : bare) : bool :=
+  existsb (N.eqb (fst f)) supported_enums
+  && match assoc (fst f) c20_bare_by_enum with Some g => (fst g =? fst f) && (snd g =? snd f) | None => false end.
+Lemma bare_tables_sound :
+  forallb (fun p => bare_entry_ok (snd p)) c20_bare_by_enum = true /\
+  forallb (fun p => bare_entry_ok (snd p)) c20_bare_by_size = true.
+Proof. split; vm_compute; reflexivity. Qed.
+
+Lemma assoc_In {V} k (tbl : list (N * V)) v : assoc k tbl = Some v -> In (k, v) tbl.
+Proof.
+  induction tbl as [|[k' v'] r IH]; [discriminate|]. cbn [assoc].
+  destruct (N.eqb_spec k k'); [intros [= ->]; subst; left; reflexivity|intro H; right; apply IH, H].
+Qed.
+
+Lemma get_bare_function_sound e n f :
+  get_bare_function e n = Some f ->
+  In (fst f) supported_enums /\ hash_bytes_of (fst f) = Some (snd f).
+Proof.
+  intro H. assert (bare_entry_ok f = true) as B.
+  { destruct bare_tables_sound as [T1 T2]. unfold get_bare_function in H.
+    destruct (e =? c20_enum_unknown); apply assoc_In in H;
+      [rewrite forallb_forall in T2; exact (T2 _ H)|rewrite forallb_forall in T1; exact (T1 _ H)]. }
+  unfold bare_entry_ok in B. apply andb_true_iff in B as [B1 B2].
+  split.
+  - apply existsb_exists in B1 as [x [Hx E]]. apply N.eqb_eq in E. subst. exact Hx.
+  - unfold hash_bytes_of. destruct (assoc (fst f) c20_bare_by_enum) as [g|]; [|discriminate].
+    apply andb_true_iff in B2 as [_ B2]. apply N.eqb_eq in B2. rewrite B2. reflexivity.
+Qed.
+
+Lemma function_by_name_sound name f :
+  function_by_name name = Some f -> In (fst f) supported_enums /\ hash_bytes_of (fst f) = Some (snd f).
+Proof.
+  unfold function_by_name. destruct (assoc_name name midfix_functions); [|discriminate].
+  apply get_bare_function_sound.
+Qed.
+
+Lemma fields_aux_slash_free s : forall cur,
+  slash_free cur -> Forall slash_free (fields_aux cur s).
+Proof.
+  induction s as [|c r IH]; intros cur H; cbn [fields_aux].
+  - destruct (nonempty cur); constructor; [|constructor]. intro K. apply in_rev in K. exact (H K).
+  - destruct (N.eqb_spec c slash).
+    + destruct (nonempty cur); [constructor; [intro K; apply in_rev in K; exact (H K)|]|];
+        apply IH; intros [].
+    + apply IH. intros [E|K]; [congruence|exact (H K)].
+Qed.
+
+Lemma validate_components_ok_not_reserved l :
+  validate_components l = Ok tt -> Forall (fun c => ~ In c c20_reserved) l.
+Proof.
+  induction l as [|c r IH]; intro H; [constructor|]. cbn [validate_components] in H.
+  destruct (nonempty c); [|discriminate].
+  destruct (memb c c20_reserved) eqn:E; [discriminate|].
+  constructor; [intro K; apply memb_In in K; congruence|apply IH, H].
+Qed.
+
+Lemma new_digest_ok_valid comps f h z v :
+  Forall (fun c => c <> [] /\ slash_free c) comps -> validate_components comps = Ok tt ->
+  In (fst f) supported_enums -> hash_bytes_of (fst f) = Some (snd f) -> (z < 2 ^ 63)%Z ->
+  new_digest (join_slash comps) f h z = Ok v ->
+  exists d, valid_digest d /\ v = pack d.
+Proof.
+  intros Hgf Hv Hs Hb Hz H. unfold new_digest in H.
+  destruct (N.eqb_spec (N.of_nat (length h)) (2 * snd f)) as [El|]; [|discriminate]. cbn [negb] in H.
+  destruct (forallb lowerhex h) eqn:Eh; [|discriminate]. cbn [negb] in H.
+  destruct (Z.ltb_spec z 0); [discriminate|]. injection H as <-.
+  exists {| d_fn := fst f; d_hash := h; d_size := z; d_inst := join_slash comps |}.
+  split; [|reflexivity]. constructor; cbn [d_fn d_hash d_size d_inst].
+  - exact Hs.
+  - exists (snd f). split; assumption.
+  - exact Eh.
+  - lia.
+  - exists comps. split; [reflexivity|].
+    pose proof (validate_components_ok_not_reserved comps Hv) as Hr.
+    rewrite Forall_forall in *. intros c Hc. destruct (Hgf c Hc) as [A B].
+    repeat split; [exact A|exact B|exact (Hr c Hc)].
+Qed.
+
+Ltac sound_step :=
+  cbn [bind skipn nth_field nth_error length Nat.ltb Nat.leb];
+  match goal with
+  | |- Err _ = Ok _ -> _ => discriminate
+  | |- Panic = Ok _ -> _ => discriminate
+  | |- context [match ?x with _ => _ end] => destruct x eqn:?
+  | |- context [bind ?x _] =>
+      lazymatch x with new_digest _ _ _ _ => fail | _ => destruct x eqn:? end
+  end.
+
+Lemma parse_common_sound header trailer v c :
+  Forall (fun c => c <> [] /\ slash_free c) header -> (3 <= length trailer)%nat ->
+  parse_common header trailer = Ok (v, c) ->
+  (exists d, valid_digest d /\ v = pack d) /\ valid_compressor c.
+Proof.
+  intros Hh Hl. unfold parse_common, new_instance_name_from_components.
+  destruct (validate_components header) as [[]| |] eqn:Hv; cbn [bind]; try discriminate.
+  assert (Fin : forall f h z cc,
+            In (fst f) supported_enums /\ hash_bytes_of (fst f) = Some (snd f) ->
+            (exists s, parse_int s = Some z) -> valid_compressor cc ->
+            (' d <- new_digest (join_slash header) f h z;; Ok (d, cc)) = Ok (v, c) ->
+            (exists d, valid_digest d /\ v = pack d) /\ valid_compressor c).
+  { intros f h z cc [F1 F2] [s Hs] Hcc H.
+    destruct (new_digest (join_slash header) f h z) as [v'| |] eqn:N; cbn [bind] in H; try discriminate.
+    injection H as -> ->. split; [|exact Hcc].
+    eapply new_digest_ok_valid; try eassumption. apply parse_int_range in Hs. lia. }
+  assert (Cid : valid_compressor c20_compressor_identity) by (left; reflexivity).
+  assert (Cn : forall n cc, compressor_by_name n = Some cc -> valid_compressor cc).
+  { intros n cc H. right. unfold compressor_by_name in H.
+    clear -H. induction c20_compressors as [|[c0 n0] r IH]; [discriminate|]. cbn [assoc_name] in H.
+    destruct (beqb n n0); [injection H as ->; left; reflexivity|right; apply IH, H]. }
+  destruct trailer as [|t0 [|t1 [|t2 rest]]]; cbn [length] in Hl; try lia.
+  destruct rest as [|r0 [|r1 rest']]; repeat sound_step;
+    try (apply Fin; [first [eapply function_by_name_sound; eassumption
+                           |eapply get_bare_function_sound; eassumption]
+                    |eexists; eassumption
+                    |first [exact Cid|eapply Cn; eassumption]]).
+Qed.
+
+Theorem parse_sound_proof s v c :
+  (parse_read_path s = Ok (v, c) \/ parse_write_path s = Ok (v, c)) ->
+  (exists d, valid_digest d /\ v = pack d) /\ valid_compressor c.
+Proof.
+  assert (Hf : Forall (fun c => c <> [] /\ slash_free c) (fields_by_slash s)).
+  { pose proof (fields_aux_nonempty s []) as A. pose proof (fields_aux_slash_free s [] ltac:(intros [])) as B.
+    fold (fields_by_slash s) in A, B. rewrite Forall_forall in *. intros x Hx. split; [apply A|apply B]; exact Hx. }
+  intros [H|H].
+  - unfold parse_read_path in H. destruct (Nat.ltb_spec (length (fields_by_slash s)) 3) as [L|L]; [discriminate|].
+    pose proof (find_split_total (fun f => beqb f c20_blobs || beqb f c20_compressed_blobs)
+                  (fields_by_slash s) 3 (S (length (fields_by_slash s))) 0 ltac:(lia) ltac:(lia) ltac:(lia)) as F.
+    destruct (find_split _ (fields_by_slash s) 3 0 _) as [sp| |]; [|discriminate|destruct F].
+    cbn [bind] in H. eapply parse_common_sound; [| |exact H].
+    + apply Forall_firstn'. exact Hf.
+    + rewrite skipn_length. lia.
+  - unfold parse_write_path in H. destruct (Nat.ltb_spec (length (fields_by_slash s)) 5) as [L|L]; [discriminate|].
+    pose proof (find_split_total (fun f => beqb f c20_uploads)
+                  (fields_by_slash s) 5 (S (length (fields_by_slash s))) 0 ltac:(lia) ltac:(lia) ltac:(lia)) as F.
+    destruct (find_split _ (fields_by_slash s) 5 0 _) as [sp| |]; [|discriminate|destruct F].
+    cbn [bind] in H. eapply parse_common_sound; [| |exact H].
+    + apply Forall_firstn'. exact Hf.
+    + rewrite skipn_length. lia.
+Qed.
